@@ -45,6 +45,12 @@ mod protocol;
 mod query;
 mod record;
 
+#[cfg(libp2p_verif)]
+pub mod verif_hooks {
+    //! Verification hooks (compiled only with `--cfg libp2p_verif`).
+    pub use crate::{kbucket::verif_hooks::*, protocol::verif_hooks::*};
+}
+
 mod proto {
     #![allow(unreachable_pub)]
     include!("generated/mod.rs");
